@@ -85,10 +85,14 @@ func l3(k int) {
 		}
 		s, t := vsym.Uint64("s"+tag), vsym.Uint64("t"+tag)
 		vsym.FindingClass("F1-epoch-ge-2^63", vsym.Or(s >= 1<<63, t >= 1<<63))
-		byKey := vsym.Choose("bykey"+tag, 2) == 1
+		// addressing: by name, by the exact public key, or by a longer byte string that still
+		// resolves to the account (the fetcher only looks at the first 48 bytes)
 		name, pk := "W/a", []byte(nil)
-		if byKey {
+		switch vsym.Choose("bykey"+tag, 3) {
+		case 1:
 			name, pk = "", keyA[:]
+		case 2:
+			name, pk = "", append(append([]byte(nil), keyA[:]...), 0x00)
 		}
 		nsigs := len(log.Signs)
 		switch vsym.Choose("endpoint"+tag, 3) {
